@@ -329,7 +329,9 @@ def reductions(key):
             yield rep(i, i, [(k, 'in', b, c, d, l)])
 
 
-_KIND_NAME = {'plain': 'string', 'raw': 'raw-string', 'bytes': 'bytes-string', 'f': 'f-string', 'rb': 'raw-bytes-string'}
+_KIND_NAME = {'plain': 'string', 'raw': 'raw-string', 'bytes': 'bytes-string', 'f': 'f-string', 'rb': 'raw-bytes-string',
+              'rf': 'raw-f-string'}
+_END_NAME = {'bs': 'backslash-newline', 'bsws': 'backslash-blank-newline', 'bs2': 'escaped-backslash-newline'}
 _IND_NAME = {'zero': 'col0', 'deep': 'overindented', 'in': 'at-body-indent', 'same': 'at-def-indent',
              'alt': 'other-whitespace-char'}
 
@@ -373,6 +375,8 @@ def features(key):
                 name += '-trailing-backslash'
             if b == 'bsws':
                 name += '-trailing-backslash-blank'
+            if b == 'bs2':
+                name += '-trailing-two-backslashes'
             if a != 'in':
                 name += '-' + _IND_NAME[a]
             fs.add(name)
@@ -391,10 +395,8 @@ def features(key):
             if b == 'q1':
                 name += '-single-quoted'
             fs.add(name)
-            if c == 'bs' and b == 'q3':
-                fs.add(strkind + '-backslash-newline')
-            if c == 'bsws':
-                fs.add(strkind + '-backslash-blank-newline')
+            if c and b == 'q3':
+                fs.add(strkind + '-' + _END_NAME[c])
             if d == 'expr':
                 fs.add('string-expression-statement')
         elif k == 'strmid':
@@ -402,15 +404,13 @@ def features(key):
                 fs.add('string-line-' + _IND_NAME[a])
             else:
                 fs.add('string-interior-line')
-            if b == 'bs':
-                fs.add(strkind + '-backslash-newline')
-            if b == 'bsws':
-                fs.add(strkind + '-backslash-blank-newline')
+            if b:
+                fs.add(strkind + '-' + _END_NAME[b])
         elif k == 'strclose' and a != 'in':
             fs.add('string-close-' + _IND_NAME[a])
     # a multi-line string is implied by the more specific backslash-newline feature
     for nm in _KIND_NAME.values():
-        if nm + '-backslash-newline' in fs or nm + '-backslash-blank-newline' in fs:
+        if any(nm + '-' + e in fs for e in _END_NAME.values()):
             fs.discard('multiline-' + nm)
             fs.discard('string-interior-line')
     return sorted(fs)
